@@ -370,6 +370,8 @@ def check_C08(ctx, rep):
                         else:
                             yield x
                     alts = tuple(dict.fromkeys(flat(chg)))
+                    # the literal 1 is what sample_value yields without a distribution: an explicit arm for it adds nothing
+                    alts = tuple(a for a in alts if not is_const(a, 1)) if len(alts) == 3 else alts
                     okc = len(alts) == 2
                     has_copy = has_sample = False
                     for a in alts:
